@@ -237,7 +237,7 @@ async def run_serial(ctx) -> None:
         ser.is_open = True
         proto2 = P.protocol_factory(lambda m: None, disable_qos=True)
         box[0] = T.PortTransport(ser, proto2, loop=loop)
-        await proto2.wait_for_connection_made(timeout=3)
+        await proto2.wait_for_connection_made(timeout=30)  # (a stalled loop may hold the handshake up)
         connected[0] = True
         hub.count("transport_reopened")
 
